@@ -721,5 +721,62 @@ Definition too_large_ev (e : event) : bool :=
 Definition skip_limit : skipper :=
   λ a b, match ev_req a with Some (RCustom _ _ _) => negb (Bool.eqb (too_large_ev a) (too_large_ev b)) | _ => false end.
 Definition pi_C03 : tproj := viol_events P_C03.
-Definition pi_C17 : proj := pi_full.
+(* C17 is decided on the implementation alone (a flagged run against its own flag-free twin, P_C17_pair, and the
+   regenerated flag table); nothing of a single flagged trace is compared with the model, so that a change which
+   breaks another property equally with and without flags does not disturb C17's check *)
+Definition pi_none : proj := blank.
+Definition pi_C17 : proj := pi_none.
+
+(* keep an event only if the spec-aware test says it is the property's business *)
+Fixpoint sfilter (keep : spec → event → bool) (π : proj) (sp : spec) (t : trace) : trace :=
+  match t with
+  | [] => []
+  | e :: t' => (if keep sp e then π e else blank e) :: sfilter keep π (spec_step sp e) t'
+  end.
+
+(* C05: joins and snapshots, and the owner-restricted requests whose target is NOT the requester's own live entity
+   (what an owner's own accepted request relays is C02's / C11's subject) *)
+Definition c05_keep (sp : spec) (e : event) : bool :=
+  is_snap_ev e ||
+  match ev_op e, ev_req e with
+  | OStep c _, Some r =>
+      match r with
+      | RJoin _ _ _ | REntityAdd _ _ _ _ _ => true
+      | REntityDelete _ eid _ | RPose eid _ _ | RAssetAdd _ eid _ _ =>
+          match sp_mem sp !! c with
+          | Some (sid, p) => match sp_ents sp !! (sid, eid) with
+                             | Some (ent, _) => negb (ep_owner ent =? p)
+                             | None => true end
+          | None => false
+          end
+      | _ => false
+      end
+  | _, _ => false
+  end.
+Definition tpi_C05 : tproj := λ _ t, sfilter c05_keep pi_C05 spec0 t.
+
+(* C01: the views themselves, not the messages that build them: at every snapshot the canonical encoding of every
+   member's view next to the server's state, and at every event the broadcasts that could not be applied *)
+Definition enc_view (c : N) (v : view) : list Z :=
+  [zn c; zn (v_sid v); zn (v_pid v)] ++ eNs (sortN (elements (v_parts v))) ++
+  eL eEnt (sort_by eEnt (map snd (map_to_list (v_ents v)))) ++
+  eL eComp (sort_by eComp (omap (λ kv : (N*N) * N, if bool_decide (fst (fst kv) ∈ v_synced v)
+        then Some {| cp_tid := fst (fst kv); cp_eid := snd (fst kv); cp_data := snd kv |} else None) (map_to_list (v_comps v)))) ++
+  eL eAction (sort_by eAction (map snd (map_to_list (v_acts v)))) ++
+  eL eAsset (sort_by eAsset (map snd (map_to_list (v_assets v)))).
+Fixpoint views_trace (cfg : config) (i : nat) (sp : spec) (vs : views) (t : trace) : trace :=
+  match t with
+  | [] => []
+  | e :: t' =>
+      let sp' := spec_step sp e in
+      let '(vs', viol) := P_C01_event cfg i sp sp' vs e in
+      let marks := omap (λ v : violation, if bool_decide (v_code v = 106%Z) then Some (0, MBad 106 (hd 0%Z (v_info v))) else None) viol in
+      let snap := match ev_op e with
+                  | OSnap => omap (λ d : delivery, match snd d with MSnap ss _ _ => Some (0, MSnap (map dump_state_only ss) 0 []) | _ => None end) (ev_outs e) ++
+                             map (λ cv : N * view, (fst cv, MCustomB 0 0 (map Z.to_N (map Z.abs (enc_view (fst cv) (snd cv))))))
+                                 (sort_by (λ cv : N * view, [zn (fst cv)]) (map_to_list vs'))
+                  | _ => [] end in
+      {| ev_op := OSnap; ev_req := None; ev_outs := marks ++ snap; ev_verdict := VOk |} :: views_trace cfg (S i) sp' vs' t'
+  end.
+Definition tpi_C01 : tproj := λ cfg t, views_trace cfg 0 spec0 ∅ t.
 Definition run_P_C17_pair (cfg : config) (t0 tF : trace) : list violation := P_C17_pair cfg 0 t0 tF.
